@@ -11,9 +11,9 @@ HEADER = ('From Coq Require Import List ZArith NArith.\n'
 
 FILES_SMALL = ['empty_triangles.dae', 'empty_triangles_with_multiple_ns.dae', 'trifans.dae', 'tristrips.dae']
 FILES_BIG = ['duck_triangles.dae', 'duck_polylist.dae']
-EXT_KINDS = ['anim', 'clips', 'physmat', 'physmodel', 'physscene', 'force', 'extra']
+EXT_KINDS = ['anim', 'clips', 'physmat', 'physmodel', 'physscene', 'force', 'extra', 'extrafx']
 EDITS = ['add_camera', 'add_camera_ortho', 'add_light', 'add_libnode', 'add_material', 'clear_lights',
-         'clear_cameras', 'no_default_scene']
+         'clear_cameras', 'no_default_scene', 'drop_scene_element', 'drop_scene_element']
 EXN_NAME = {1: 'DaeIncomplete', 2: 'DaeBrokenRef', 3: 'DaeMalformed', 4: 'DaeUnsupported', 5: 'DaeSaveValidation',
             6: 'DaeOther', 7: 'PyIndexError', 8: 'PyKeyError', 9: 'PyTypeError', 10: 'PyValueError',
             11: 'PyAttributeError', 12: 'PyOther'}
@@ -30,7 +30,7 @@ def count_cameras(spec):
     n = 0
     if spec['kind'] in ('prog', 'pathdoc'):
         n = spec['params'].get('cameras', 0)
-    elif spec['name'].startswith('duck'):
+    elif spec.get('name', '').startswith('duck'):
         n = 1
     for e in spec.get('edits', []):
         if e in ('add_camera', 'add_camera_ortho'):
@@ -121,6 +121,41 @@ def gen_pathdoc(rng, how):
     return spec
 
 
+PREFIXES = ['exp', 'xp', 'e', 'ns0', 'ns1', 'x', None]
+URIS = ['urn:example:exporter', 'urn:other', 'http://example.org/ext/1.0']
+
+
+def gen_xml(rng):
+    """raw document with foreign-namespace content under chosen prefixes; default-namespace or prefixed root"""
+    foreign = []
+    for u in rng.sample(URIS, rng.choice([1, 1, 2])):
+        foreign.append([rng.choice(PREFIXES), u])
+    pf = [f[0] for f in foreign if f[0]]
+    if len(pf) != len(set(pf)):
+        foreign = foreign[:1]
+    return {'kind': 'xml', 'rootprefix': rng.choice([None, None, 'c', 'dae']), 'foreign': foreign,
+            'value': rng.choice(['1', '2', 'v']), 'edits': [rng.choice(['add_camera', 'add_light', 'add_material'])] if rng.random() < 0.5 else []}
+
+
+def gen_other_step(rng):
+    docs = [gen_xml(rng) for _ in range(rng.choice([1, 2, 3]))]
+    if rng.random() < 0.3:
+        docs.append({'kind': 'file', 'name': rng.choice(FILES_SMALL), 'ext': [['extra', -1]]})
+    if rng.random() < 0.3:
+        docs.append({'kind': 'prog', 'params': {'cameras': 1, 'scenes': 1}, 'ext': [['extra', 0]]})
+    return {'op': 'other', 'docs': docs, 'acts': rng.choice([['load'], ['load', 'write'], ['load', 'write', 'save']])}
+
+
+def interleave_others(rng, hist, n):
+    """between attempts: work on other documents, each followed (not necessarily at once) by a healthy write of
+    the document under test, which the worker compares with the first write of an untouched twin"""
+    for _ in range(n):
+        i = rng.randrange(len(hist) + 1)
+        hist.insert(i, {'op': 'write', 'dest': ['sink', None], 'query': False})
+        hist.insert(i, gen_other_step(rng))
+    return hist
+
+
 def gen_file(rng, name):
     edits = [rng.choice(EDITS) for _ in range(rng.choice([0, 1, 2]))]
     if not name.startswith('duck') and rng.random() < 0.7:
@@ -138,8 +173,12 @@ def gen_docs(rng, nprog, nfile_small, nfile_big, hist_len):
             docs.append(gen_file(rng, name))
     for _ in range(nprog):
         docs.append(gen_prog(rng))
+    for _ in range(max(6, nprog // 4)):
+        docs.append(gen_xml(rng))
     for d in docs:
         d['history'] = gen_history(rng, d, hist_len)
+        if d['kind'] == 'xml' or rng.random() < 0.5:
+            interleave_others(rng, d['history'], rng.choice([1, 2]))
     hows = ['path', 'path', 'path', 'zip', 'zipstream', 'loader', 'stream']
     for i in range(max(len(hows), nprog // 4)):
         d = gen_pathdoc(rng, hows[i % len(hows)])
@@ -349,7 +388,7 @@ def run(ctx):
         nfail_att += nf
         if nf >= 1:
             seen.add(core.canon_hash(j['spec']))
-        for e, att in zip(evs, j['spec']['history']):
+        for e, att in zip(evs, [a for a in j['spec']['history'] if a['op'] != 'other']):
             codes[str(e['code'])] = codes.get(str(e['code']), 0) + 1
             dk = 'save' if e['dest'] is None else '%s:%s' % (e['dest'][0], e['dest'][1])
             dests[dk] = dests.get(dk, 0) + 1
@@ -368,7 +407,7 @@ def run(ctx):
                 '(every invalid parameter combination on a camera, default scene outside scenes, both at once); '
                 'non-trivial = at least one attempt failed; distinct = different specification.  indent: random '
                 'whitespace skeletons (depth <= 4), non-trivial = has children.',
-        'samples': [{'spec': {k: v for k, v in j['spec'].items() if k != 'history'}, 'history': j['spec']['history'][:3],
+        'samples': [{'spec': {k: v for k, v in j['spec'].items() if k != 'history'}, 'history': [a for a in j['spec']['history'] if a['op'] != 'other'][:3],
                      'observed': [[e['code'], e['dflag']] for e in r['case']['events'][:3]]} for j, r in tjobs[:3]],
         'distribution': {'documents': len(jobs), 'histories_replayed_in_coq': len(terms), 'attempts_that_failed': nfail_att,
                          'exception_codes': codes, 'destinations': dests, 'fault_kinds': faultkinds,
@@ -377,7 +416,8 @@ def run(ctx):
                          'unwritable_documents': sum(1 for r in results if r and not r.get('writable')),
                          'documents_loaded_from_disk_or_archive_with_auxiliary_files': sum(1 for d in docs if d['kind'] == 'pathdoc'),
                          'lazy_queries_first_evaluated_after_the_history': sum(r.get('nlazy', 0) for r in results if r),
-                         'indent_cases': len(iterms)},
+                         'indent_cases': len(iterms),
+                         'steps_on_other_documents_interleaved': sum(1 for j in jobs for a in j['spec'].get('history', []) if a['op'] == 'other')},
         'mismatches': mismatches,
         'errors': errors + ierrors,
         'exhaustive': False,
